@@ -278,6 +278,10 @@ def wiring(ctx):
         lst = c[0].args[0].value.id
         appenders = [f_ for f_ in ast.walk(wt_) if isinstance(f_, ast.FunctionDef) and f_ is not wt_ and P.has(f_, "%s.append(%s)" % (lst, pn(f_, 1)))]
         okl = P.has(wt_, "%s = []" % lst) and [f_.name for f_ in appenders] == ["visitInheritTag"]
+        # every <%inherit> tag is recorded: the append is the visitor's unconditional statement
+        if okl:
+            f_ = appenders[0]
+            okl = any(isinstance(s_, ast.Expr) and P.matches(s_.value, "%s.append(%s)" % (lst, pn(f_, 1))) for s_ in f_.body)
     ctx.check(okl, "last-inherit-wins", db.where(c[0]) if c else db.where(wi), "not the last <%inherit> tag is used", "inherit[-1]")
     ns = db.func("codegen._GenerateRenderMethod.write_namespaces")
     ctx.check("context['self'].%s = ns" in src(ns) and "inheritable" in src(ns), "inheritable-namespaces", db.where(ns), "inheritable namespaces are not attached to self", "inheritable -> context['self'].<name>")
